@@ -215,6 +215,38 @@ def _none_arms(fn_node: ast.AST):
                     yield body[i + 1:]
 
 
+_VALUE_PRESERVING = {"float", "float64", "real", "Fraction", "asarray", "array", "item"}
+_VALUE_CHANGING = {"round", "around", "clip", "min", "max", "floor", "ceil", "int", "abs", "sqrt", "exp", "log"}
+
+
+def _weight_form(w: ast.AST, pv: str) -> str:
+    """'exact': p or p * <parent>.frequency (through value-preserving wrappers); 'rescaled': arithmetic on p with
+    anything else, or a value-changing function of p; 'undecided': anything the rule does not know."""
+    if isinstance(w, ast.Name):
+        return "exact" if w.id == pv else "undecided"
+    if isinstance(w, ast.Call):
+        nm = (dotted(w.func) or "").split(".")[-1]
+        inner = [a for a in w.args if any(isinstance(x, ast.Name) and x.id == pv for x in ast.walk(a))]
+        if nm in _VALUE_PRESERVING and len(w.args) == 1:
+            return _weight_form(w.args[0], pv)
+        if nm in _VALUE_CHANGING and inner:
+            return "rescaled"
+        return "undecided"
+    if isinstance(w, ast.BinOp):
+        uses_l = any(isinstance(x, ast.Name) and x.id == pv for x in ast.walk(w.left))
+        uses_r = any(isinstance(x, ast.Name) and x.id == pv for x in ast.walk(w.right))
+        if not (uses_l or uses_r):
+            return "undecided"
+        if isinstance(w.op, ast.Mult):
+            for x, y in ((w.left, w.right), (w.right, w.left)):
+                if isinstance(y, ast.Attribute) and y.attr == "frequency":
+                    return _weight_form(x, pv)
+                if isinstance(y, ast.Constant) and y.value in (1, 1.0):
+                    return _weight_form(x, pv)
+        return "rescaled"
+    return "undecided"
+
+
 def clause_c(ctx: Context, idx) -> None:
     """With shots=None the branch weights are the exact outcome probabilities, so that they sum to the norm of the
     measured state and multiply along the chain of measurements.  In each `if shots is None:` arm, every weight that
@@ -247,14 +279,11 @@ def clause_c(ctx: Context, idx) -> None:
                         weights.extend(k.value for k in elt.keywords if k.arg == "frequency")
                 for w in weights:
                     n_weights += 1
-                    ok = False
-                    if isinstance(w, ast.Name) and w.id == pv:
-                        ok = True
-                    elif isinstance(w, ast.BinOp) and isinstance(w.op, ast.Mult):
-                        a, b = w.left, w.right
-                        for x, y in ((a, b), (b, a)):
-                            if isinstance(x, ast.Name) and x.id == pv and isinstance(y, ast.Attribute) and y.attr == "frequency":
-                                ok = True
+                    verdict = _weight_form(w, pv)
+                    if verdict == "undecided":
+                        raise AnalysisError(f"C03c: the weight `{norm(w)[:60]}` built in the shots=None arm of {fn.qualname} has a form the rule "
+                                            f"cannot classify (undecided)")
+                    ok = verdict == "exact"
                     key = f"{fn.qualname}|shots-none-weight|{norm(w)[:50]}"
                     ctx.obligation("C03c", key, ok, f"{ctx.relpath(fn.file)}:{w.lineno}")
                     if not ok:
